@@ -88,6 +88,7 @@ class Reg(Logic):
             self.reset_value = 0
             
         self.value = self.reset_value
+        self.q.put(self.value)  # power-up value, as in the generated 'reg rq = <reset_value>'
         
     def clock(self):
         setValue = True
